@@ -200,7 +200,19 @@ def gen_vbox(rng, doctype: str = "", lead: str = ""):
     machine = f'<Machine uuid="{{m}}" name="vm">{reg}<Hardware><CPU count="2"/></Hardware></Machine>'
     if rng.random() < 0.3:
         machine = f'<Global>{reg}</Global>' + f'<Machine uuid="{{m}}" name="vm"><Hardware/></Machine>'
-    text = f'<?xml version="1.0"?>\n{lead}{doctype}<VirtualBox xmlns="{VBOX_NS}" version="1.16-linux">{machine}</VirtualBox>'
+    # the same namespace can be declared in several spellings (quotes, blanks around '=', a prefix instead of the default)
+    form = rng.choice(["default", "default", "single-quotes", "spaced", "prefix"])
+    body = f'<VirtualBox xmlns="{VBOX_NS}" version="1.16-linux">{machine}</VirtualBox>'
+    if form == "single-quotes":
+        body = body.replace(f'xmlns="{VBOX_NS}"', f"xmlns='{VBOX_NS}'", 1)
+    elif form == "spaced":
+        body = body.replace(f'xmlns="{VBOX_NS}"', f'xmlns  =  "{VBOX_NS}"', 1)
+    elif form == "prefix":
+        import re as _re
+
+        pfx = rng.choice(["vb", "ns0", "v"])
+        body = _re.sub(r"<(/?)([A-Za-z])", lambda m_: f"<{m_.group(1)}{pfx}:{m_.group(2)}", body).replace(f'xmlns="{VBOX_NS}"', f'xmlns:{pfx}="{VBOX_NS}"', 1)
+    text = f'<?xml version="1.0"?>\n{lead}{doctype}{body}'
     return text, sorted(must), sorted(maybe), sorted(never)
 
 
@@ -265,4 +277,5 @@ LEADS = ["", "<!-- exported by a tool -->\n", '<?xml-stylesheet type="text/xsl" 
          "<!-- " + "licence text " * 400 + "-->\n", "<?pi " + "x" * 60 + "?>\n" * 1 + "<?note y?>\n" * 900, " " * 5000 + "\n" * 3000,
          "<!-- " + "z" * 70000 + " -->\n",
          # the text "<!ENTITY" where it is not a declaration (commented-out DOCTYPE, processing instruction): nothing is declared
+         "<!-- converted from xmlns=\"http://www.innotek.de/VirtualBox-settings\" -->\n",
          '<!-- <!DOCTYPE x [<!ENTITY a "b">]> -->\n', '<?editor note="<!ENTITY a SYSTEM \'file:///etc/passwd\'>"?>\n']
